@@ -67,6 +67,10 @@ def bounds(quick):
         "assembly-blueprint": (1, [0]) if quick else (2, [0, 2]),
         "core": (2, [0, 2]) if quick else (3, [0, 2, 2]),
         "core-cartesian": (1, [0]) if quick else (2, [0, 2]),
+        # staleness searches: parent-level edits interleaved with geometry changes of descendants
+        "assembly-stale": (3, ["stale"] * 3) if quick else (4, ["stale"] * 4),
+        "core-stale": (2, ["stale"] * 2) if quick else (3, ["stale"] * 3),
+        "core-cartesian-stale": (3, ["stale"] * 3),
         "max_states": None if quick else 250000,
     }
 
@@ -419,7 +423,10 @@ PREFER_MULTI = ["FE", "NA", "U235", "CR"]
 PREFER_SECOND = ["ZR", "U238", "CR", "C", "B11", "O"]
 # every operation has a rank: 0 = offered in the initial state only, 1 = "deep" (also offered in
 # states reached by rank>=1 operations), 2 = "key" (the handful extended in the expensive core
-# states).  init["ranks"][d] is the minimum rank offered in states at depth d.
+# states).  init["ranks"][d] is the minimum rank offered in states at depth d; the entry "stale"
+# instead offers the staleness alphabet (parent-level edits of a nuclide held by only some children
+# interleaved with geometry changes of descendants, see ``geometry_ops``).
+STALE_BIT = 16
 
 
 def _pick(cands, prefer):
@@ -458,14 +465,15 @@ def target_ops(M, tree, path, budget="full"):
     one, multi, second, absent = r["one"], r["multi"], r["second"], r["absent"]
     ops = []
 
-    def add(op, deep=False, small=True, key=False):
+    def add(op, deep=False, small=True, key=False, stale=False):
         if budget == "small" and not small:
             return
-        ops.append((op, 2 if key else (1 if deep else 0)))
+        # rank 0 = initial state only, 1 = deep, 2 = key; STALE_BIT marks the "staleness" alphabet
+        ops.append((op, (2 if key else (1 if deep else 0)) + (STALE_BIT if stale else 0)))
 
     if one:
         add(["setND", p, one, ["mul", 2.0]], small=False)
-        add(["setND", p, one, ["mul", 0.5]], key=True)
+        add(["setND", p, one, ["mul", 0.5]], key=True, stale=not path and node["lvl"] in ("assembly", "core"))
         add(["setND", p, one, ["abs", 0.0]], deep=True)
         add(["setND", p, one, ["abs", TRACE]], small=False)
     if multi:
@@ -476,7 +484,7 @@ def target_ops(M, tree, path, budget="full"):
     add(["scale", p, 2.0], key=True)
     add(["scale", p, 0.5], small=False)
     if one:
-        add(["setMass", p, one, ["abs", 100.0]], key=True)
+        add(["setMass", p, one, ["abs", 100.0]], key=True, stale=not path and node["lvl"] in ("assembly", "core"))
         add(["setMass", p, one, ["mulmass", 2.0]], small=False)
         add(["addMass", p, one, ["mulmass", 0.5]])
         add(["removeMass", p, one, ["mulmass", 0.5]], deep=True)
@@ -510,6 +518,38 @@ def target_ops(M, tree, path, budget="full"):
     return ops
 
 
+def geometry_ops(s, tree, M):
+    """Operations that change the volume weights a parent uses (the "staleness" alphabet together
+    with the parent-level edits tagged stale in ``target_ops``): for every query that sums or
+    weights over children there must be an operation between two uses that changes the weights.
+    Only offered where there is a level above the block (assembly and core initial states)."""
+    k = s.init["kind"]
+    if k not in ("assembly", "core"):
+        return []
+    ops = []
+    if k == "assembly":
+        blocks = [(0,), (len(tree["kids"]) - 1,)]
+    else:
+        sfs = [a["kids"][0]["sf"] for a in tree["kids"]]
+        blocks = [(sfs.index(max(sfs)), 0), (sfs.index(1.0), 0)]
+    for i, bp in enumerate(blocks):
+        if k == "assembly" or i == 0:
+            ops.append((["setHeight", list(bp), 1.25, False], STALE_BIT))
+        if k == "assembly" or i == 1:
+            ops.append((["setHeight", list(bp), 0.8, True], STALE_BIT))
+    cp = list(blocks[-1]) + [0] if k == "core" else [0, 0]
+    ops.append((["setDim", cp, 0.95], STALE_BIT))
+    ops.append((["setTemp", cp, 100.0], STALE_BIT))
+    if k == "assembly":
+        ops.append((["removeBlock", [], -1], STALE_BIT))
+        if s.init.get("which") != "blueprint":
+            # the added block is constructor-built (natural-element nuclides): adding it to the
+            # blueprint assembly (isotopic nuclides) would mix both forms of one element
+            ops.append((["addBlock", [], 17.0], STALE_BIT))
+    # the target-level setHeight ops already exist for block targets: drop duplicates
+    return ops
+
+
 def targets(s, tree, M):
     """(path, budget) of the objects operations are applied to."""
     k = s.init["kind"]
@@ -536,7 +576,21 @@ def alphabet(s, tree, M):
     out = []
     for path, budget in targets(s, tree, M):
         out += target_ops(M, tree, path, budget=budget)
+    have = {_opkey(op): i for i, (op, _r) in enumerate(out)}
+    for op, rk in geometry_ops(s, tree, M):
+        i = have.get(_opkey(op))
+        if i is None:
+            out.append((op, rk))
+        else:
+            out[i] = (op, out[i][1] % STALE_BIT + STALE_BIT)
     return out
+
+
+def _offered(rk, R):
+    """Is an operation of rank/tag ``rk`` offered under policy entry ``R`` (int minimum rank or "stale")?"""
+    if R == "stale":
+        return rk >= STALE_BIT
+    return rk % STALE_BIT >= R
 
 
 # ---------------------------------------------------------------------------------------------
@@ -594,6 +648,10 @@ def concrete_args(M, pre, op):
         return {}
     if name == "setHeight":
         return {"f": float(op[2]), "conserve": bool(op[3])}
+    if name in ("setDim", "setTemp", "addBlock"):
+        return {"x": float(op[2])}
+    if name == "removeBlock":
+        return {"i": int(op[2])}
     raise ValueError(name)
 
 
@@ -691,6 +749,17 @@ def real_apply(obj, op, a):
             obj.setHeight(obj.getHeight() * a["f"], conserveMass=True, adjustList=sorted(obj.getNuclides()))
         else:
             obj.setHeight(obj.getHeight() * a["f"])
+    elif name == "setDim":
+        key = [d for d in ("od", "op", "widthOuter", "base") if d in obj.DIMENSION_NAMES][0]
+        obj.setDimension(key, obj.getDimension(key, cold=True) * a["x"])
+    elif name == "setTemp":
+        obj.setTemperature(obj.temperatureInC + a["x"])
+    elif name == "removeBlock":
+        obj.remove(obj[a["i"]])
+    elif name == "addBlock":
+        from armi.reactor import blocks
+
+        obj.add(_rich_block("hexplenum" if isinstance(obj[0], blocks.HexBlock) else "cartshield", a["x"], "plenum"))
     else:
         raise ValueError(name)
 
@@ -705,9 +774,16 @@ def step(s, M, pre, op, check, case):
     """Apply ``op`` to the real state. Returns (outcome, post tree, violations)."""
     vs = []
     name, path = op[0], tuple(op[1])
+    try:
+        Tpre = M.at(pre, path)
+    except IndexError:
+        return "refused:NoTarget", pre, vs  # the addressed block was removed earlier in this history
+    if name == "removeBlock" and len(Tpre["kids"]) <= 1:
+        return "refused:NoTarget", pre, vs  # an assembly without blocks has no volume to account for
+    if name in GEOMETRY_OPS:
+        return _geometry_step(s, M, pre, op, check, case)
     a = concrete_args(M, pre, op)
     obj = obj_at(s.root, path)
-    Tpre = M.at(pre, path)
     tag = lvl_tag(Tpre)
     ltag = lvl_tag(Tpre, sym=False)
     ctag = "component" if Tpre["lvl"] == "component" else "composite"
@@ -762,6 +838,46 @@ def step(s, M, pre, op, check, case):
             bad("distribution-%s-%s" % (kname, tag), "per-component densities differ from the documented de-homogenisation: %s" % d[:3])
         if name == "scale" and Tpre["lvl"] == "component" and Tpre.get("det") is not None:
             pass
+    return out, post, vs
+
+
+GEOMETRY_OPS = ("setDim", "setTemp", "removeBlock", "addBlock")
+
+
+def _geometry_step(s, M, pre, op, check, case):
+    """A change of geometry below the level whose accounting is observed.  No density prediction
+    (thermal expansion is C03's subject): the oracle is the state invariants evaluated afterwards
+    with the CURRENT volumes, plus: densities of every other component are untouched, and a
+    temperature change scales all nuclides of the component by one common factor."""
+    vs = []
+    name, path = op[0], tuple(op[1])
+    a = concrete_args(M, pre, op)
+    obj = obj_at(s.root, path)
+    try:
+        real_apply(obj, op, a)
+        out = "ok"
+    except Exception as e:  # noqa: BLE001
+        out = "raised:" + type(e).__name__
+        vs.append(core.viol("c02/exception-%s-%s" % (name, type(e).__name__), "%s after %s: unexpected %r" % (_where(s, path), _opstr(op, a), e), case))
+    post = snap(s)
+    if not check or out != "ok":
+        return out, post, vs
+    if name in ("setDim", "setTemp"):
+        for p, l in M.leaves(post):
+            l0 = M.at(pre, p)
+            if p != path and l0["nd"] != l["nd"]:
+                vs.append(core.viol("c02/frame-%s" % name, "%s after %s: component %s changed: %s" % (_where(s, path), _opstr(op, a), list(p), _dictdiff(l0["nd"], l["nd"])[:2]), case))
+                break
+        l0, l1 = M.at(pre, path)["nd"], M.at(post, path)["nd"]
+        ratios = [l1.get(n, 0.0) / v for n, v in l0.items() if v]
+        if set(l0) != set(l1) or (ratios and not all(close(r, ratios[0]) for r in ratios)) or (name == "setDim" and l0 != l1):
+            vs.append(core.viol("c02/densities-%s" % name, "%s after %s: densities %s -> %s" % (_where(s, path), _opstr(op, a), dict(sorted(l0.items())[:3]), dict(sorted(l1.items())[:3])), case))
+    else:
+        before = [l["nd"] for _p, l in M.leaves(pre)]
+        after = [l["nd"] for _p, l in M.leaves(post)]
+        n = min(len(before), len(after)) if name == "addBlock" else len(after)
+        if before[:n] != after[:n]:
+            vs.append(core.viol("c02/frame-%s" % name, "%s after %s: densities of the other blocks changed" % (_where(s, path), _opstr(op, a)), case))
     return out, post, vs
 
 
@@ -1082,7 +1198,22 @@ def invariants(s, M, tree, case, full_paths=None):
                         bad("massfracs", node, path, "mass fraction of %s reads %r / %r, mass ratio is %r" % (n, mf.get(n), o.getMassFrac(n), mmf[n]))
                         break
 
+        def volfracs():
+            if comp:
+                return
+            got = o.getVolumeFractions()
+            vols = [M.vol(k) for k in node["kids"]]
+            tot = sum(vols)
+            if len(got) != len(vols) or not all(g[0] is c for g, c in zip(got, o)):
+                bad("volume-fractions", node, path, "getVolumeFractions() lists %d children, the object has %d" % (len(got), len(vols)))
+            elif tot and not all(close(g[1], v / tot) for g, v in zip(got, vols)):
+                bad("volume-fractions", node, path, "getVolumeFractions() = %s, current child volumes give %s" % ([float(g[1]) for g in got][:4], [v / tot for v in vols][:4]))
+            elif tot and node["kids"] and not close(o[0].getVolumeFraction(), vols[0] / tot):
+                bad("volume-fractions", node, path, "child.getVolumeFraction() = %r, expected %r" % (o[0].getVolumeFraction(), vols[0] / tot))
+
         section("volume", volume)
+        if not comp:
+            section("volume-fractions", volfracs)
         if full or lvl in ("block", "component"):
             section("ndens", ndens)
         section("mass", mass)
@@ -1194,8 +1325,8 @@ def expand(item):
     R = ranks[depth] if depth < len(ranks) else 99
     alpha = alphabet(s, tree0, M)
     rank_of = {_opkey(op): rk for op, rk in alpha}
-    if all(rank_of.get(_opkey(h), -1) >= R for h in hist):
-        ops = [op for op, rk in alpha if rk >= R]
+    if all(_offered(rank_of.get(_opkey(h), -1), R) for h in hist):
+        ops = [op for op, rk in alpha if _offered(rk, R)]
     else:
         ops = []
     return {"canon": _digest(canon(tree, M)), "full": None, "viols": viols, "ops": ops, "out": out, "terminal": not ops, "cpu": time.process_time() - cpu0}
@@ -1237,6 +1368,7 @@ def inits(ctx):
     cores = [{"kind": "core", "rings": 3}]
     cart = [{"kind": "core", "geom": "cart"}]
     groups = [("table", table), ("rich", rich), ("assembly", assem), ("assembly-blueprint", bp), ("core", cores), ("core-cartesian", cart)]
+    groups += [("assembly-stale", [dict(x) for x in assem]), ("core-stale", [dict(x) for x in cores]), ("core-cartesian-stale", [dict(x) for x in cart])]
     for name, ii in groups:
         for x in ii:
             x["ranks"] = list(B[name][1])
